@@ -89,8 +89,29 @@ def parse(tracefile, d):
 def run(pid, replay=None):
     thorough = vlib.tier() == "thorough"
     V = vlib.Verdict(pid)
-    work = vlib.outdir(pid, "work", clean=True)
     binp = vlib.build_driver(pid, "sessdrv")
+    tot = {"evals": 0, "kills": 0, "cases": 0, "states": 0, "transitions": 0, "inv": True}
+    samples = []
+    # two save scenarios: the new session encodes to a different / to exactly the same length as the file it replaces
+    for scen in ("diff", "same"):
+        os.environ["SESS_SCENARIO"] = scen
+        work = vlib.outdir(pid, "work_" + scen, clean=True)
+        ev, ki, cases, ops, r, inv = scenario(pid, V, work, binp, scen)
+        tot["evals"] += ev; tot["kills"] += ki; tot["cases"] += len(cases)
+        tot["states"] += r.distinct; tot["transitions"] += r.generated; tot["inv"] = tot["inv"] and bool(inv.ok)
+        samples += [{"scenario": scen, "program": ops}, {"scenario": scen, "image": cases[0]}, {"scenario": scen, "image": cases[-1]}]
+    os.environ.pop("SESS_SCENARIO", None)
+    cov = {"evaluations": tot["evals"] + tot["kills"], "distinct_nontrivial": tot["cases"] + tot["kills"],
+           "rule": "two scenarios (new session of different / of the same encoded length as the old file); post-crash images = distinct (crash kind, file content) pairs reachable in the file-system model from the recorded system-call trace of the real "
+                   "save (process crash between calls, inside a write, power loss with un-synced data/rename); plus one real SIGKILL injection per recorded system call",
+           "samples": samples[:4],
+           "states": tot["states"], "transitions": tot["transitions"], "model_invariant_holds": tot["inv"], "exhaustive": True}
+    return V.finish("fault_enumeration", cov, [
+        "file-system model: page cache survives a process crash; on power loss data since the last fsync of the file and renames since the last directory fsync may be lost",
+        "the recorded program is deterministic (GOMAXPROCS=1, main thread locked)", "strace fault injection kills on entry to the selected call"])
+
+
+def scenario(pid, V, work, binp, scen):
     d = os.path.join(work, "fs")
     os.makedirs(d)
     P = os.path.join(d, "s.json")
@@ -127,7 +148,7 @@ def run(pid, replay=None):
         c = cases[res["case"]]
         evals += 1
         if not res["got"].get("ok"):
-            V.violation("crash:%s:%s" % (c["crash"], c["img"]["kind"]),
+            V.violation("crash:%s:%s:%s" % (scen, c["crash"], c["img"]["kind"]),
                         "after a %s crash at system call %d of the recorded save the session file can hold %s; the real Loader returns %s" % (
                             c["crash"], c["at"], json.dumps(c["img"]), json.dumps(res["got"])),
                         {"case": c, "got": res["got"], "program": ops})
@@ -152,12 +173,5 @@ def run(pid, replay=None):
             V.violation("kill:before:%s" % ops[k]["op"] if k < len(ops) else "kill",
                         "process killed on entry to system call %d (%s) of the save: the next start loads %s" % (k, text, json.dumps(res)),
                         {"kill_at": k, "syscall": text, "got": res, "program": ops})
-    log("%d post-crash images loaded by the real Loader; %d real kill injections" % (evals, kills))
-    cov = {"evaluations": evals + kills, "distinct_nontrivial": len(cases) + kills,
-           "rule": "post-crash images = distinct (crash kind, file content) pairs reachable in the file-system model from the recorded system-call trace of the real "
-                   "save (process crash between calls, inside a write, power loss with un-synced data/rename); plus one real SIGKILL injection per recorded system call",
-           "samples": [{"program": ops}, {"image": cases[0]}, {"image": cases[-1]}],
-           "states": r.distinct, "transitions": r.generated, "model_invariant_holds": bool(inv.ok), "exhaustive": True}
-    return V.finish("fault_enumeration", cov, [
-        "file-system model: page cache survives a process crash; on power loss data since the last fsync of the file and renames since the last directory fsync may be lost",
-        "the recorded program is deterministic (GOMAXPROCS=1, main thread locked)", "strace fault injection kills on entry to the selected call"])
+    log("[%s] %d post-crash images loaded by the real Loader; %d real kill injections" % (scen, evals, kills))
+    return evals, kills, cases, ops, r, inv
